@@ -8,7 +8,7 @@ import oracle
 from common import ModelRun, model_classes, cx, pipeline_guard
 from drive import Result
 
-RULE = ("Hypothesis generates lattice models (N<=5 quick, <=6 thorough), beta in [0.1,100], operator index quadruples (a,b,c,d) for "
+RULE = ("Hypothesis generates lattice models (N<=5 quick, <=6 thorough), beta in [0.1,1000] (so that beta*|pole| exceeds the overflow threshold of exp), operator index quadruples (a,b,c,d) for "
         "A=c+_a c_b, B=c+_c c_d (density-like, spin-flip-like and hopping-like), bosonic Matsubara numbers from {0,+-1,+-2,+-17,...}, "
         "a tau grid incl. both ends, and one of the three ways of supplying the disconnected part (or none; the value overload also with "
         "arbitrary complex numbers; the EnsembleAverage overload with fresh objects and with objects the caller has already prepared).  pomerol's chi_AB(iW_n) and chi_AB(tau) are compared with the numpy Lehmann reference incl. the "
@@ -21,14 +21,14 @@ CONFIG = {
     "quick": {"flavours": ["real", "complex"], "shards": 8, "examples": 150, "min_nontrivial": 100, "budget_s": 100},
     "thorough": {"flavours": ["real", "complex"], "shards": 16, "examples": 2500, "min_nontrivial": 2000, "budget_s": 3000},
 }
-REQUIRED_CLASSES = {"quick": ["n=0", "n!=0", "sub-1", "sub-2", "sub-3", "sub-4", "offdiag-operator", "zero-pole", "complex"],
-                    "thorough": ["n=0", "n!=0", "sub-1", "sub-2", "sub-3", "sub-4", "offdiag-operator", "zero-pole", "complex"]}
+REQUIRED_CLASSES = {"quick": ["n=0", "n!=0", "sub-1", "sub-2", "sub-3", "sub-4", "offdiag-operator", "zero-pole", "complex", "overflow-branch"],
+                    "thorough": ["n=0", "n!=0", "sub-1", "sub-2", "sub-3", "sub-4", "offdiag-operator", "zero-pole", "complex", "overflow-branch"]}
 TAUF = [0.0, 1e-9, 0.1, 0.25, 0.5, 0.8, 1.0 - 1e-9, 1.0]
 
 
 @st.composite
 def strategy_(draw, tier):
-    mdl = draw(gen.any_model_st(max_modes=5 if tier == "quick" else 6, beta_lo=0.1, beta_hi=100.0))
+    mdl = draw(gen.any_model_st(max_modes=5 if tier == "quick" else 6, beta_lo=0.1, beta_hi=1000.0))
     N = M.n_modes(mdl["sites"])
     ix = st.integers(0, N - 1)
     quad = st.one_of(st.tuples(ix, ix).map(lambda t: (t[0], t[0], t[1], t[1])),      # n_a n_c
@@ -111,6 +111,8 @@ def execute(case, ctx):
         zp = bool(np.any((np.abs(P) < 1e-6) & (np.abs(A * B.T) * ref.w[:, None] > 1e-9)))
         if zp and 0 in ns:
             classes.append("zero-pole")
+        if bool(np.any((beta * np.abs(P) > 710) & (np.abs(A * B.T) > 1e-9))):
+            classes.append("overflow-branch")
         if offd and nz:
             classes.append("offdiag-operator")
         if nz and (offd or (zp and 0 in ns) or sub):
